@@ -104,9 +104,10 @@ func (l *c14Log) history(vm, uuid string, max int) string {
 // ---------------------------------------------------------------- run configuration (the "input" of a case)
 
 type c14Action struct {
-	Kind   string `json:"kind"`   // cancel | prio0 | requeue | hold | drain | restart | add
-	Victim int    `json:"victim"` // container index (cancel/prio0/requeue)
-	At     int    `json:"at"`     // fires when this many crunch-run starts have been observed (hold/drain/restart/add)
+	Kind   string `json:"kind"`        // cancel | prio0 | requeue | hold | drain | restart | add
+	Victim int    `json:"victim"`      // container index (cancel/prio0/requeue)
+	At     int    `json:"at"`          // fires when this many crunch-run starts have been observed (hold/drain/restart/add)
+	N      int    `json:"n,omitempty"` // add: number of containers (0 = cfg.LateAdd)
 }
 
 type c14RunCfg struct {
@@ -132,10 +133,37 @@ type c14RunCfg struct {
 	// on an instance that the operator holds before the container is
 	// cancelled and releases after the dispatcher gave up killing it.
 	Witness string `json:"witness,omitempty"`
+	// queue poll interval of the dispatcher (ms): with a long interval the
+	// scheduler's queue cache lags the API truth for many scheduler passes
+	PollMs int `json:"poll_ms"`
+	// percentage of VMs (before calm) that are slow over SSH: crunch-run
+	// --detach takes a few ms before the process exists, and crunch-run
+	// --list answers late with a snapshot taken when the command arrived
+	SlowSSHPct int `json:"slow_ssh_vm_percent"`
+	// instance types needed by only one or two containers each; the first
+	// Create call for a type (per dispatcher generation, before calm) fails
+	// with this probability
+	RareTypes       []int `json:"rare_types"`
+	RareLate        []int `json:"rare_types_added_after_restart"`
+	FirstCreateFail int   `json:"first_create_of_a_type_fails_percent"`
+}
+
+// c14Ms converts a duration given for the reference poll interval (5 ms)
+// into a number of polls of this run.
+func (cfg c14RunCfg) pollsFor(ms int64) int64 {
+	p := int64(cfg.PollMs)
+	if p <= 0 {
+		p = 5
+	}
+	n := ms / p
+	if n < 100 {
+		n = 100
+	}
+	return n
 }
 
 func c14WitnessCfg(kind string) c14RunCfg {
-	return c14RunCfg{Containers: 3, Types: 1, K: 1200, KFault: 2500, WatchdogSecs: 120, Seed: 1, Witness: kind,
+	return c14RunCfg{Containers: 3, Types: 1, K: 1200, KFault: 2500, WatchdogSecs: 120, Seed: 1, Witness: kind, PollMs: 5,
 		Actions: []c14Action{{Kind: "cancel", Victim: 0}}}
 }
 
@@ -152,12 +180,25 @@ func c14GenCfg(rng *verifkit.Rand, thorough bool) c14RunCfg {
 		}
 	} else {
 		cfg.Containers = rng.PickInt(50, 60, 80, 100)
-		cfg.Restarts = 1
+		cfg.Restarts = rng.PickInt(0, 1, 1)
 	}
+	cfg.PollMs = rng.PickInt(5, 5, 5, 20, 50)
+	if !cfg.Quota {
+		cfg.K = cfg.pollsFor(15000)
+	}
+	cfg.KFault = cfg.pollsFor(12500)
+	cfg.SlowSSHPct = rng.PickInt(40, 60, 75)
+	for _, t := range rng.Perm(4)[:rng.Range(2, 4)] {
+		cfg.RareTypes = append(cfg.RareTypes, 5+t) // types 5..8
+	}
+	if cfg.Restarts > 0 {
+		cfg.RareLate = []int{9, 10}[:rng.Range(1, 2)]
+	}
+	cfg.FirstCreateFail = rng.PickInt(40, 60, 80)
 	cfg.LateAdd = rng.Range(0, 6)
 	cfg.DestroyErr = rng.PickInt(0, 10, 20, 40)
 	cfg.ListRateLim = rng.PickInt(0, 2, 5)
-	cfg.CreateErr = rng.PickInt(0, 5, 15)
+	cfg.CreateErr = rng.PickInt(0, 5, 15, 30)
 	cfg.FaultyVMPct = rng.PickInt(30, 50, 70)
 	cfg.InitLocked = rng.Range(0, 3)
 	cfg.InitRunning = rng.Range(0, 2)
@@ -177,11 +218,38 @@ func c14GenCfg(rng *verifkit.Rand, thorough bool) c14RunCfg {
 	for i := rng.Range(2, 5); i > 0; i-- {
 		cfg.Actions = append(cfg.Actions, c14Action{Kind: rng.PickStr("hold", "drain"), At: rng.Range(2, n*3/4)})
 	}
+	lastRestart := 0
 	for i := 0; i < cfg.Restarts; i++ {
-		cfg.Actions = append(cfg.Actions, c14Action{Kind: "restart", At: rng.Range(3, n*3/4)})
+		at := rng.Range(3, n*3/4)
+		if at > lastRestart {
+			lastRestart = at
+		}
+		cfg.Actions = append(cfg.Actions, c14Action{Kind: "restart", At: at})
+	}
+	if len(cfg.RareLate) > 0 {
+		// containers of not yet used instance types arrive after the last
+		// restart, so that the first Create of their type is made by the
+		// dispatcher generation that has to see them through
+		cfg.Actions = append(cfg.Actions, c14Action{Kind: "add-rare", At: lastRestart + 1})
 	}
 	if cfg.LateAdd > 0 {
 		cfg.Actions = append(cfg.Actions, c14Action{Kind: "add", At: rng.Range(1, n/2)})
+	}
+	return cfg
+}
+
+// c14SlowSSHCfg: a run without cloud faults in which every VM is slow over
+// SSH and the queue is polled often: many crunch-run starts race with a run
+// probe whose "--list" snapshot predates the new process and whose answer
+// is processed after "--detach" has returned.
+func c14SlowSSHCfg(rng *verifkit.Rand) c14RunCfg {
+	cfg := c14RunCfg{Types: rng.Range(1, 2), K: 3000, KFault: 2500, WatchdogSecs: 150, PollMs: 5, SlowSSHPct: 100}
+	// containers arrive in small waves, so that few instances exist at a
+	// time, each is used again and again, and each is probed every few ms
+	cfg.Containers = rng.Range(6, 10)
+	cfg.Seed = rng.Uint64()
+	for k := 1; k <= rng.Range(12, 16); k++ {
+		cfg.Actions = append(cfg.Actions, c14Action{Kind: "add", At: 4 * k, N: 4})
 	}
 	return cfg
 }
@@ -218,7 +286,8 @@ type c14XDetach struct {
 type c14SCall struct {
 	gen    int
 	uuid   string
-	tc     int64
+	tc     int64 // call began
+	tr     int64 // call returned
 	ok     bool
 	linked bool
 }
@@ -235,12 +304,16 @@ type c14Window struct {
 }
 
 type c14VM struct {
-	id        string
-	svm       *test.StubVM
-	kind      string // fault kind
-	created   int64
-	bootAt    time.Time
-	unkill    bool
+	id      string
+	svm     *test.StubVM
+	kind    string // fault kind
+	created int64
+	bootAt  time.Time
+	unkill  bool
+	// slow over SSH: delay before crunch-run --detach creates the process,
+	// and delay of the answer of crunch-run --list (snapshot taken at arrival)
+	preDetach time.Duration
+	listLag   time.Duration
 	destroyed int64 // time of successful Destroy return; 0 = still exists
 	windows   []c14Window
 	// first "--list" answer containing "broken" seen by generation g, and
@@ -278,6 +351,7 @@ type c14Gen struct {
 	polls        int64
 	oblig        map[string]*c14Oblig
 	detaches     map[*c14InflightDetach]bool
+	createSeen   map[string]int // Create calls per instance type name
 }
 
 // c14InflightDetach: a "crunch-run --detach" command a dispatcher has sent
@@ -360,6 +434,7 @@ type c14World struct {
 	// slow-start VM's CrunchRunDetachDelay (process inserted, not answered)
 	slowInFlight int
 	witnessHeld  string
+	createOK     map[string]int // Create calls per type that were passed on to the cloud
 	done         chan struct{}
 	loglines     []string
 }
@@ -445,7 +520,7 @@ func (h *c14LogHook) Fire(e *logrus.Entry) error {
 		if id, ok := e.Data["Instance"]; ok {
 			vmid := fmt.Sprint(id)
 			w.mu.Lock()
-			if vm := w.vms[vmid]; vm != nil && (vm.kind == "healthy" || vm.kind == "slow-boot" || vm.kind == "slow-start" || vm.kind == "crashy" || vm.kind == "unkillable") {
+			if vm := w.vms[vmid]; vm != nil && (vm.kind == "healthy" || vm.kind == "slow-ssh" || vm.kind == "slow-boot" || vm.kind == "slow-start" || vm.kind == "crashy" || vm.kind == "unkillable") {
 				vm.spuriousT = int64(time.Since(w.log.t0))
 				w.counters["guard_healthy_vm_declared_unresponsive"]++
 			}
@@ -531,12 +606,28 @@ func (is *c14InstanceSet) Create(it arvados.InstanceType, image cloud.ImageID, t
 			w.count("fault_quota_error", 1)
 			return nil, c14QuotaError{}
 		}
-		if w.chance(w.cfg.CreateErr) {
-			w.count("fault_create_ratelimit", 1)
-			w.log.add(c14Event{Kind: "create-ret", Gen: g.n, Info: "injected rate limit"})
-			return nil, c14RateLimitError{time.Now().Add(time.Duration(w.rnd(1, 20)) * time.Millisecond)}
+		g.mu.Lock()
+		g.createSeen[it.Name]++
+		first := g.createSeen[it.Name] == 1
+		g.mu.Unlock()
+		if (first && w.chance(w.cfg.FirstCreateFail)) || w.chance(w.cfg.CreateErr) {
+			if first {
+				w.count("fault_first_create_of_a_type_failed", 1)
+			}
+			if w.chance(50) {
+				w.count("fault_create_ratelimit", 1)
+				w.log.add(c14Event{Kind: "create-ret", Gen: g.n, Info: "injected rate limit " + it.Name})
+				return nil, c14RateLimitError{time.Now().Add(time.Duration(w.rnd(1, 20)) * time.Millisecond)}
+			}
+			w.count("fault_create_error", 1)
+			w.log.add(c14Event{Kind: "create-ret", Gen: g.n, Info: "injected error " + it.Name})
+			return nil, errors.New("c14: injected create failure")
 		}
 	}
+	w.mu.Lock()
+	w.createOK[it.Name]++
+	w.cond.Broadcast()
+	w.mu.Unlock()
 	inst, err := w.sis.Create(it, image, tags, cmd, pk)
 	if err != nil {
 		w.log.add(c14Event{Kind: "create-ret", Gen: g.n, Info: "error: " + err.Error()})
@@ -875,8 +966,24 @@ func (p *c14EPool) StartContainer(it arvados.InstanceType, ctr arvados.Container
 	case ent.Container.Priority < 1:
 		w.finding("C14:S2:start-priority-zero", fmt.Sprintf("StartContainer(%s) but the latest queue snapshot shows priority %d", ctr.UUID, ent.Container.Priority))
 	}
+	// S2 (truth side, with the dispatcher-knowledge guard): the container
+	// has already been finished by a crunch-run process (only processes set
+	// Complete), and the pool told this very scheduler pass that the
+	// process has exited (placeholder) -- the outcome is simply not in the
+	// queue cache yet. A user's cancel racing with the start is NOT judged.
+	if truth, ok := w.tq.C14TruthOf(ctr.UUID); ok && truth.State == arvados.ContainerStateComplete {
+		g.mu.Lock()
+		exitedAt, listed := g.lastRunning[ctr.UUID]
+		g.mu.Unlock()
+		w.count("S2_start_calls_for_already_completed_container", 1)
+		if listed && !exitedAt.IsZero() {
+			w.finding("C14:S2:start-after-own-process-exited:api-state-Complete", fmt.Sprintf(
+				"StartContainer(%s): the container is already Complete in the API (finished by a crunch-run process), the pool reported that process as exited to the same runQueue pass, only the queue cache still says Locked\n%s",
+				ctr.UUID, w.log.history("", ctr.UUID, 25)))
+		}
+	}
 	sc.ok = p.inner.StartContainer(it, ctr)
-	w.log.add(c14Event{Kind: "p-start-ret", Gen: g.n, UUID: ctr.UUID, OK: sc.ok})
+	sc.tr = w.log.add(c14Event{Kind: "p-start-ret", Gen: g.n, UUID: ctr.UUID, OK: sc.ok})
 	w.mu.Lock()
 	w.scalls = append(w.scalls, sc)
 	w.mu.Unlock()
@@ -1077,6 +1184,16 @@ func (w *c14World) setupVM(svm *test.StubVM) {
 			vm.unkill = true
 		}
 	}
+	if vm.kind == "healthy" && w.cfg.Witness == "" && w.chance(w.cfg.SlowSSHPct) {
+		// slow, not faulty (also after calm): crunch-run --detach needs a
+		// while before the process exists, and crunch-run --list answers
+		// late enough for a probe that started during that while to be
+		// processed after --detach has returned
+		vm.kind = "slow-ssh"
+		vm.preDetach = time.Duration(w.rnd(5000, 15000)) * time.Microsecond
+		svm.CrunchRunDetachDelay = time.Duration(w.rnd(0, 2000)) * time.Microsecond
+		vm.listLag = vm.preDetach + svm.CrunchRunDetachDelay + time.Duration(w.rnd(3000, 8000))*time.Microsecond
+	}
 	vm.bootAt = svm.Boot
 	vm.created = w.log.add(c14Event{Kind: "vm-created", VM: id, Info: vm.kind})
 	w.mu.Lock()
@@ -1098,6 +1215,9 @@ func (w *c14World) setupVM(svm *test.StubVM) {
 			booting := time.Now().Before(vm.bootAt)
 			tc = w.log.add(c14Event{Kind: "vm-detach-call", VM: id, UUID: uuid})
 			svm.C14ResetKill(uuid) // a new process is not affected by signals sent to an earlier one
+			if vm.preDetach > 0 && !booting {
+				time.Sleep(vm.preDetach) // the process does not exist yet
+			}
 			if vm.kind == "slow-start" && !booting {
 				w.mu.Lock()
 				w.slowInFlight++
@@ -1115,6 +1235,10 @@ func (w *c14World) setupVM(svm *test.StubVM) {
 			}
 		}
 		rc := orig(env, command, stdin, stdout, stderr)
+		if kind == "list" && rc == 0 && vm.listLag > 0 {
+			time.Sleep(vm.listLag) // the answer (already produced) arrives late
+			w.count("slow_list_answers", 1)
+		}
 		switch kind {
 		case "detach":
 			tr := w.log.add(c14Event{Kind: "vm-detach-ret", VM: id, UUID: uuid, OK: rc == 0, Info: fmt.Sprintf("rc=%d", rc)})
@@ -1148,7 +1272,7 @@ func (w *c14World) setupVM(svm *test.StubVM) {
 func (w *c14World) executeContainer(vm *c14VM, ctr arvados.Container) int {
 	u := ctr.UUID
 	enter := w.log.add(c14Event{Kind: "proc-run-enter", VM: vm.id, UUID: u})
-	d := time.Duration(w.rnd(1, 25)) * time.Millisecond
+	d := time.Duration(w.rnd(2, 50)) * time.Millisecond
 	if w.chance(10) {
 		d = time.Duration(w.rnd(50, 250)) * time.Millisecond
 	}
@@ -1278,6 +1402,7 @@ func c14NewWorld(prop string, cfg c14RunCfg) (*c14World, error) {
 		counters:  map[string]int{},
 		victim:    map[string]string{},
 		victimHit: map[string]bool{},
+		createOK:  map[string]int{},
 		stopSamp:  make(chan struct{}),
 		done:      make(chan struct{}),
 		sampDone:  make(chan struct{}),
@@ -1304,13 +1429,13 @@ func c14NewWorld(prop string, cfg c14RunCfg) (*c14World, error) {
 			StaleLockTimeout:   arvados.Duration(60 * time.Second),
 			CloudVMs: arvados.CloudVMsConfig{
 				Driver:               "c14stub",
-				SyncInterval:         arvados.Duration(25 * time.Millisecond),
+				SyncInterval:         arvados.Duration(60 * time.Millisecond),
 				TimeoutIdle:          arvados.Duration(200 * time.Millisecond),
 				TimeoutBooting:       arvados.Duration(1000 * time.Millisecond),
 				TimeoutProbe:         arvados.Duration(500 * time.Millisecond),
 				TimeoutShutdown:      arvados.Duration(5 * time.Millisecond),
 				MaxCloudOpsPerSecond: 500,
-				PollInterval:         arvados.Duration(5 * time.Millisecond),
+				PollInterval:         arvados.Duration(time.Duration(cfg.PollMs) * time.Millisecond),
 				ProbeInterval:        arvados.Duration(5 * time.Millisecond),
 				MaxProbesPerSecond:   1000,
 				TimeoutSignal:        arvados.Duration(3 * time.Millisecond),
@@ -1323,6 +1448,9 @@ func c14NewWorld(prop string, cfg c14RunCfg) (*c14World, error) {
 		InstanceTypes: arvados.InstanceTypeMap{},
 	}
 	for i := 1; i <= cfg.Types; i++ {
+		w.cluster.InstanceTypes[test.InstanceType(i).Name] = test.InstanceType(i)
+	}
+	for _, i := range append(append([]int{}, cfg.RareTypes...), cfg.RareLate...) {
 		w.cluster.InstanceTypes[test.InstanceType(i).Name] = test.InstanceType(i)
 	}
 	w.cluster.Services.Controller.ExternalURL = arvados.URL{Scheme: "https", Host: "verif.invalid"}
@@ -1356,6 +1484,11 @@ func c14NewWorld(prop string, cfg c14RunCfg) (*c14World, error) {
 		}
 		w.tq.Containers = append(w.tq.Containers, c)
 	}
+	for _, t := range cfg.RareTypes {
+		for k := w.rnd(1, 2); k > 0; k-- {
+			w.tq.Containers = append(w.tq.Containers, w.rareContainer(t))
+		}
+	}
 	for _, a := range cfg.Actions {
 		switch a.Kind {
 		case "cancel", "prio0", "requeue":
@@ -1386,13 +1519,28 @@ func c14NewWorld(prop string, cfg c14RunCfg) (*c14World, error) {
 	return w, nil
 }
 
+// rareContainer makes a container that only instance type t satisfies.
+func (w *c14World) rareContainer(t int) arvados.Container {
+	u := test.ContainerUUID(len(w.uuids) + 1)
+	w.uuids = append(w.uuids, u)
+	return arvados.Container{
+		UUID:     u,
+		State:    arvados.ContainerStateQueued,
+		Priority: int64(w.rnd(1, 20)),
+		RuntimeConstraints: arvados.RuntimeConstraints{
+			RAM:   int64(t) << 29,
+			VCPUs: t,
+		},
+	}
+}
+
 // startGen starts a new dispatcher "process". It performs the steps of
 // dispatcher.initialize() with two differences: the executor factory wraps
 // the dispatcher's own sshexecutor in a logging/fencing decorator, and pool
 // and queue are wrapped in logging decorators (upstream's own end-to-end
 // test replaces the queue the same way). dispatcher.run() is the real one.
 func (w *c14World) startGen() (*c14Gen, error) {
-	g := &c14Gen{w: w, oblig: map[string]*c14Oblig{}, detaches: map[*c14InflightDetach]bool{}}
+	g := &c14Gen{w: w, oblig: map[string]*c14Oblig{}, detaches: map[*c14InflightDetach]bool{}, createSeen: map[string]int{}}
 	g.cond = sync.NewCond(&g.mu)
 	w.mu.Lock()
 	g.n = len(w.gens)
